@@ -30,16 +30,16 @@ def gen(tier, seed):
                 ["pre: " + pre], "default state = density(env) x volume, default chemostats = flag(env), species-major, for EVERY environment map of a %dx%dx%d grid (units: network %s, species %s, space %s, system %s)" % (w, h, d, un, us, up, uy),
                 args, timeout=300)
         add("default_graph_%d" % k, "c13-default-graph", "default_graph([e0, e1, e2], %r, %r, %r, %r, %r)" % (un, us, up, rnd.choice(S) if tier != "quick" else "I", uy),
-            ["pre: 0 <= e0 <= 2 and 0 <= e1 <= 2 and 0 <= e2 <= 2"], "default state on a 3-node graph with per-node volumes in their own units, every environment map (units combination %d)" % k,
+            ["pre: 0 <= e0 <= 2 and 0 <= e1 <= 2 and 0 <= e2 <= 2" if tier != "quick" else "pre: 0 <= e0 <= 2 and 0 <= e1 <= 1 and e2 == 2 - e0"], "default state on a 3-node graph with per-node volumes in their own units, every environment map (units combination %d)" % k,
             "e0: int, e1: int, e2: int", timeout=300)
     add("index_grid", "c13-index", "index_formula('grid', s, x, y, z)", ["pre: 0 <= s <= 3 and 0 <= x <= 2 and 0 <= y <= 1 and 0 <= z <= 1" if tier != "quick" else "pre: 1 <= s <= 2 and 0 <= x <= 2 and 0 <= y <= 1 and 0 <= z <= 1"],
         "state index = species*ncells + (z*w*h + y*w + x) for species given by index / label / object and the cell by linear index / tuple / object (3x2x2)", "s: int, x: int, y: int, z: int", timeout=240)
     add("index_graph", "c13-index", "index_formula('graph', s, x, 0, 0)", ["pre: 0 <= s <= 3 and 0 <= x <= 3"], "state index = species*ncells + node on a graph", "s: int, x: int", timeout=120)
     for kind in ("grid", "graph"):
         for uv in ("A", "B", "G"):
-            add("touch_%s_%s" % (kind, uv), "c13-accessors", "accessors_touch_one_entry(%r, s, c, %r)" % (kind, uv), ["pre: 0 <= s <= 3 and 0 <= c <= 3"],
+            add("touch_%s_%s" % (kind, uv), "c13-accessors", "accessors_touch_one_entry(%r, s, c, %r)" % (kind, uv), ["pre: 0 <= s <= 3 and 0 <= c <= 3" if tier != "quick" else "pre: 1 <= s <= 2 and 0 <= c <= 3"],
                 "set_state / get_state / set_chemostat / get_chemostat read and write exactly entry species*ncells+cell, converting units (%s, value given in system %s)" % (kind, uv), "s: int, c: int", timeout=240)
-    add("regen", "c13-regenerate", "regenerate_reflects_edit(s, [e0, e1])", ["pre: 0 <= s <= 3 and 0 <= e0 <= 2 and 0 <= e1 <= 2"], "regenerating the defaults after editing a species reflects the edit", "s: int, e0: int, e1: int", timeout=240)
+    add("regen", "c13-regenerate", "regenerate_reflects_edit(s, [e0, e1])", ["pre: 0 <= s <= 3 and 0 <= e0 <= 2 and 0 <= e1 <= 2" if tier != "quick" else "pre: 0 <= s <= 3 and 0 <= e0 <= 1 and e1 == 1"], "regenerating the defaults after editing a species reflects the edit", "s: int, e0: int, e1: int", timeout=240)
     return "\n".join(L), conds
 
 
